@@ -189,4 +189,56 @@ theorem anylist_lt_total {rs : Regs} {as : List Arg} {l : List Nat}
   obtain ⟨ls, hls, rfl⟩ := anylist_elementwise h
   exact mapM_flatten_lt as ls hls
 
+
+/-! ## the classical bit index of `measure q[k] -> c[j]` -/
+
+/-- an accepted classical bit index is inside its register -/
+theorem clbitOk_lt {cregs : Regs} {name : String} {j sz : Nat}
+    (hs : regSize cregs name = some sz) (h : clbitOk cregs name j = true) : j < sz := by
+  induction cregs with
+  | nil => simp [regSize] at hs
+  | cons r rest ih =>
+    obtain ⟨n, s⟩ := r
+    simp only [clbitOk, List.any_cons, Bool.not_eq_true', Bool.or_eq_false_iff,
+      Bool.and_eq_false_iff, beq_eq_false_iff_ne, ne_eq, decide_eq_false_iff_not, Nat.not_le] at h
+    simp only [regSize] at hs
+    split at hs
+    · rename_i hn
+      simp only [Option.some.injEq] at hs
+      subst hs
+      rcases h.1 with h1 | h1
+      · exact absurd hn h1
+      · exact h1
+    · exact ih hs (by simp [clbitOk, h.2])
+
+/-- with distinct register names the check is exactly "below the size of the register" -/
+theorem clbitOk_of_lt {cregs : Regs} (hnd : (cregs.map Prod.fst).Nodup) {name : String}
+    {j sz : Nat} (hs : regSize cregs name = some sz) (hj : j < sz) :
+    clbitOk cregs name j = true := by
+  induction cregs with
+  | nil => simp [regSize] at hs
+  | cons r rest ih =>
+    obtain ⟨n, s⟩ := r
+    simp only [List.map_cons, List.nodup_cons] at hnd
+    simp only [regSize] at hs
+    simp only [clbitOk, List.any_cons, Bool.not_eq_true', Bool.or_eq_false_iff,
+      Bool.and_eq_false_iff, beq_eq_false_iff_ne, ne_eq, decide_eq_false_iff_not, Nat.not_le]
+    split at hs
+    · rename_i hn
+      simp only [Option.some.injEq] at hs
+      subst hs
+      refine ⟨Or.inr hj, ?_⟩
+      rw [List.any_eq_false]
+      intro r hr
+      have : r.1 ≠ name := by
+        intro he
+        apply hnd.1
+        rw [hn, ← he]
+        exact List.mem_map_of_mem hr
+      simp [this]
+    · rename_i hn
+      refine ⟨Or.inl hn, ?_⟩
+      have := ih hnd.2 hs
+      simpa [clbitOk] using this
+
 end BqVerif.Qasm
